@@ -131,7 +131,7 @@ def hidden_under_dir(raw):
     return ext is not None and name == "" and path != ""
 
 
-def oracle(case, out, relax=False):
+def oracle(case, out, relax=False, public_only=False):
     """Evaluate the decomposition laws on the implementation's output line `out`.
     Returns (ok, required) ; required describes what the property demands for this case.
     relax: leave out the recomposition laws through dropExt() (used to attribute a failure to the open finding)."""
@@ -173,6 +173,8 @@ def oracle(case, out, relax=False):
             for q in t[2:]:
                 vals = [v for n, v in params if n == uh(q)]
                 exp.append(("1" if vals else "0") + ":" + (hx(vals[-1]) if vals else "throw"))
+            if public_only:
+                exp[2] = "?"
             return f == exp, "type=%r file=%r params=%r (getValue = last duplicate)" % (ty, fl, params)
         if k == "FN":
             s = ref_norm(uh(t[1]))
@@ -540,9 +542,87 @@ def regen_facts(ctx):
                        "reactions; anything unrecognised becomes an Unknown constructor, which fails the Coq check)")
 
 
+def stage(ctx, name, fn, default=None):
+    """run one stage; an exception is recorded (stage name + first line) and the run continues"""
+    try:
+        return fn()
+    except Exception as ex:                       # noqa: BLE001 - a broken stage must never abort the whole check
+        import traceback
+        ctx.log("stage %s raised:\n%s" % (name, traceback.format_exc()[-1500:]))
+        ctx.broken.append("stage %s failed: %s: %s" % (name, type(ex).__name__, str(ex).split("\n")[0][:200]))
+        return default
+
+
+BUDGET_S = 200
+
+
+def over_budget(ctx):
+    import time
+    return (not ctx.thorough()) and time.time() - ctx.t0 > BUDGET_S
+
+
+def run_impl_resumable(ctx, exe, cases, timeout=300, max_restarts=6):
+    """one output line per case; when the harness dies (sanitizer report, signal) the case is marked and the run resumes behind it"""
+    import subprocess
+    lines, events, start = [], [], 0
+    inp, outp, errp = (os.path.join(ctx.build, "impl_%s.txt" % k) for k in ("in", "out", "err"))
+    while start < len(cases):
+        open(inp, "w").write("\n".join(cases[start:]) + "\n")
+        env = dict(os.environ)
+        env.update(ctx.SAN_ENV)
+        with open(inp) as fi, open(outp, "w") as fo, open(errp, "w") as fe:
+            try:
+                rc = subprocess.run([exe], stdin=fi, stdout=fo, stderr=fe, env=env, timeout=timeout).returncode
+            except subprocess.TimeoutExpired:
+                rc = 124
+        got = open(outp, errors="replace").read().split("\n")[:-1][:len(cases) - start]
+        err = open(errp, errors="replace").read()
+        err = err if len(err) < 4000 else err[:1500] + "\n[...]\n" + err[-2500:]
+        lines.extend(got)
+        n = start + len(got)
+        if n >= len(cases):
+            if rc != 0:
+                events.append((len(cases), rc, err))
+            break
+        events.append((n, rc, err))
+        lines.append("<no output: harness died rc=%d>" % rc)
+        start = n + 1
+        if len(events) > max_restarts or over_budget(ctx):
+            lines.extend(["<not run>"] * (len(cases) - start))
+            break
+    return lines, events
+
+
+def build_harness(ctx):
+    """the harness reads PseudoURL::params through `#define private public`; when that build fails against the tree the
+    PUBLIC-INTERFACE build (-DC18_PUBLIC_ONLY: params shown as '?', everything else through getType/getFileName/getValue/hasParam)
+    is used.  Each is retried once with a wider repo source list.  -> (exe, public_only)"""
+    wide = REPO_SRC + ["rkcommon/utility/demangle.cpp"]
+    for pub in (False, True):
+        for srcs in (REPO_SRC, wide):
+            exe = stage(ctx, "harness build", lambda: ctx.cxx(["harness.cpp"], "harness_pub" if pub else "harness", repo_sources=srcs,
+                                                             sanitize="asan", libs=["-ldl"], flags=["-DC18_PUBLIC_ONLY"] if pub else []))
+            if exe:
+                if pub:
+                    ctx.broken.append("the private-state harness does not build against this tree; the public-interface harness is used "
+                                      "(PseudoURL::params not observed directly)")
+                return exe, pub
+    return None, False
+
+
+def pub_line(case, line):
+    """public-interface harness: the params field of a PU line is not observed"""
+    if case[:2] == "PU":
+        f = line.split(" ")
+        if len(f) >= 3:
+            f[2] = "?"
+            return " ".join(f)
+    return line
+
+
 def run(ctx):
-    regen_facts(ctx)
-    res = ctx.coq_check(("Properties.v", "PropertiesFacts.v"))
+    stage(ctx, "fact extraction", lambda: regen_facts(ctx))
+    res = stage(ctx, "coq build", lambda: ctx.coq_check(("Properties.v", "PropertiesFacts.v")), default={}) or {}
     bad_facts = sorted(n for n, ok in res.items() if n.startswith("src_") and not ok)
     if bad_facts:
         first = None
@@ -554,9 +634,11 @@ def run(ctx):
         ctx.cov["source_fact_broken_first"] = first
         ctx.log("source-derived obligations broken (first failing: %s); all of PropertiesFacts.v counted as broken: %s\n  extracted facts:\n    %s"
                 % (first, ", ".join(bad_facts), "\n    ".join(ctx.cov.get("source_facts", []))))
-    model = ctx.extract(snippets=["conv_N.ml", "conv_Z.ml", "conv_nat.ml"])
-    exe = ctx.cxx(["harness.cpp"], "harness", repo_sources=REPO_SRC, sanitize="asan", libs=["-ldl"])
-    if not model or not exe:
+    model = stage(ctx, "model extraction", lambda: ctx.extract(snippets=["conv_N.ml", "conv_Z.ml", "conv_nat.ml"]))
+    exe, public_only = build_harness(ctx)
+    ctx.cov["stages"] = {"model": bool(model), "harness": ("public-interface" if public_only else "private-state") if exe else None}
+    if not exe:
+        ctx.broken.append("no harness could be built against this tree: nothing was run on the real code")
         return
     cases, mix = gen_cases(ctx)
     corpus = os.path.join(ctx.verif, "corpus", "C18", "cases.txt")
@@ -565,13 +647,26 @@ def run(ctx):
         cases = extra + cases
         mix["corpus"] = len(extra)
     label = "rkcommon"
-    mism, crashes, mlines = vlib.differential(ctx, cases, model, [(label, exe, [])])
-    if len(mlines) != len(cases):
-        return
+    mlines = []
+    if model:
+        mlines = stage(ctx, "model run", lambda: vlib.differential(ctx, cases, model, [])[2], default=[]) or []
+    have_model = len(mlines) == len(cases)
+    if not have_model:
+        ctx.broken.append("the extracted model is not available: the real code is judged by the independent python oracle alone "
+                          "(model-vs-code correspondence skipped)")
+    ilines, events = stage(ctx, "harness run", lambda: run_impl_resumable(ctx, exe, cases), default=([], []))
+    ilines = (ilines + ["<not run>"] * len(cases))[:len(cases)]
     ctx.count(len(cases))
-    impl = list(mlines)
-    for (i, _, il, ml) in mism:
-        impl[i] = il
+    if public_only and have_model:
+        mlines = [pub_line(c, m) for c, m in zip(cases, mlines)]
+    impl = list(ilines)
+    mism = [(i, label, il, mlines[i]) for i, il in enumerate(ilines)
+            if have_model and il != mlines[i] and not il.startswith("<no")] if have_model else []
+    crashes = {}
+    for (n, rc, err) in events[:3]:
+        crashes["%s#%d" % (label, n)] = (rc, err, n)
+    if not have_model:
+        mlines = list(ilines)          # bookkeeping below counts on what actually ran
     # ---- coverage bookkeeping
     toklen = {"0": 0, "1": 0, "2": 0, ">=3": 0}
     sfx = {}
@@ -607,9 +702,9 @@ def run(ctx):
     bad = {}          # kind -> list of (case index)
     known_hidden = []
     for i, (c, o) in enumerate(zip(cases, impl)):
-        if o.startswith("<no output"):
+        if o.startswith("<no"):
             continue
-        ok, req = oracle(c, o)
+        ok, req = oracle(c, o, public_only=public_only) if c[:2] == "PU" else oracle(c, o)
         if not ok:
             if c[:2] in ("FN", "FE") and hidden_under_dir(uh(c.split()[1])) and oracle(c, o, relax=True)[0]:
                 known_hidden.append(i)       # exactly the class of the open finding, and only its law fails
@@ -629,6 +724,9 @@ def run(ctx):
     ctx.cov["mismatches"] = len(mism)
     mis_idx = set(i for (i, _, _, _) in mism)
 
+    def orc(c, o):
+        return oracle(c, o, public_only=public_only) if c[:2] == "PU" else oracle(c, o)
+
     def run1(line):
         rc, out, err = ctx.run_exe(exe, [], stdin=line + "\n")
         return out.strip("\n")
@@ -640,20 +738,20 @@ def run(ctx):
         if k in ("SC", "SS", "TK", "PU", "FN", "FE", "FP", "FO", "LB", "LU"):
             def fails(chars, t=t):
                 l2 = " ".join([t[0], hx("".join(chars))] + t[2:])
-                return not oracle(l2, run1(l2))[0]
+                return (not over_budget(ctx)) and not orc(l2, run1(l2))[0]
             small = vlib.shrink_list(list(uh(t[1])), fails)
             line = " ".join([t[0], hx("".join(small))] + t[2:])
         elif k == "AL":
             def fails(args):
                 l2 = "AL " + " ".join(args)
-                return not oracle(l2, run1(l2))[0]
+                return (not over_budget(ctx)) and not orc(l2, run1(l2))[0]
             line = "AL " + " ".join(vlib.shrink_list(t[1:], fails))
         obs = run1(line)
-        ok, req = oracle(line, obs)
+        ok, req = orc(line, obs)
         if ok:                      # shrinking went wrong; fall back to the original
             line, obs = cases[i], impl[i]
-            ok, req = oracle(line, obs)
-        agrees = i not in mis_idx
+            ok, req = orc(line, obs)
+        agrees = have_model and i not in mis_idx
         ctx.violation("%s: the implementation's output breaks the decomposition law (%d failing cases of this kind)%s"
                       % (k, len(idxs), " — the model agrees with the implementation: model/theorem and oracle are inconsistent" if agrees else ""),
                       {"case": show(line), "case_line": line, "observed": obs, "observed_decoded": decode_out(line, obs),
